@@ -186,9 +186,9 @@ def c12(ck, tmp):
             text = "\n".join(tl)
         tok = tokenize_gfa(text)
         lines, reads, steps_l = [], [], []
-        for k in range(rng.randint(4, 14)):
+        for k in range(rng.randint(4, 14) if it % 6 else rng.randint(7, 14)):
             w = G.walk(rng, g, adj, maxsteps=5)
-            if it % 6 == 0 and k in (0, 1, 2, 3, 4):
+            if it % 6 == 0 and k in (0, 1, 2, 3, 4, 5):
                 w = [(g.segs[0]["id"], rng.choice("+-"))]
             pseq = "".join(seqd[n] if o == "+" else G.rc(seqd[n]) for n, o in w)
             if len(pseq) < 2:
@@ -204,6 +204,8 @@ def c12(ck, tmp):
                 a, b = 20, 20 + 60050          # the read will be shorter than the limit, the path slice longer (net deletions)
             elif it % 6 == 0 and k == 4:
                 a, b = 1000, 1000 + 600        # see below: a long insertion and, 150 bases later, a long deletion
+            elif it % 6 == 0 and k == 5:
+                a, b = 2000, 2000 + rng.randint(10500, 12500)     # the same pattern in an alignment of more than 10 000 bases
             else:
                 a = rng.randrange(0, len(pseq) - 1)
                 b = rng.randrange(a + 1, min(len(pseq), a + 400) + 1)
@@ -227,6 +229,12 @@ def c12(ck, tmp):
                 n_i, n_d = rng.randint(80, 120), rng.randint(80, 120)
                 q = ref[:150] + G.rseq(rng, n_i) + ref[150:300] + ref[300 + n_d:]
                 cg = "150=%dI150=%dD%d=" % (n_i, n_d, len(ref) - 300 - n_d)
+            elif it % 6 == 0 and k == 5:
+                # > 10 000 read bases with a ~100-base insertion and, 150 bases later, a ~100-base deletion: any length-dependent
+                # switch to a pruning heuristic shows here
+                n_i, n_d = rng.randint(90, 130), rng.randint(90, 130)
+                q = ref[:5000] + G.rseq(rng, n_i) + ref[5000:5150] + ref[5150 + n_d:]
+                cg = "5000=%dI150=%dD%d=" % (n_i, n_d, len(ref) - 5150 - n_d)
             elif boundary:
                 q = list(ref)
                 for pos in rng.sample(range(len(q)), 3):
@@ -237,6 +245,9 @@ def c12(ck, tmp):
             if not q:
                 continue
             pre, post = G.rseq(rng, rng.randint(0, 6)), G.rseq(rng, rng.randint(0, 6))
+            if it % 6 == 3 and k == 1:
+                # a read of more than 60 000 bases of which only a short stretch is aligned: the limit is on the aligned interval
+                pre = G.rseq(rng, 60000 + rng.randint(1, 300))
             read = pre + q + post
             name = "rd%d_%d" % (it, k)
             tags = G.rand_tags(rng, cigar=cg)
@@ -328,6 +339,13 @@ def long_record_runs(ck, tmp):
     seqd = dict(segs)
 
     def rec(name, long_):
+        if long_ == "partial":
+            # a read of more than 60 000 bases, aligned over a short stretch only: realigned like any ordinary record
+            line, q = rec(name, False)
+            f = line.split("\t")
+            pre = G.rseq(rng, 60000 + rng.randint(1, 200))
+            f[1], f[2], f[3] = str(len(pre) + len(q)), str(len(pre)), str(len(pre) + len(q))
+            return "\t".join(f), pre + q
         if long_:
             a, b = 50, 50 + 60001 + rng.randint(0, 200)
             q = long_seq[a:b]
@@ -341,7 +359,8 @@ def long_record_runs(ck, tmp):
     shapes = [("only-long", 2, 2, [True, True]),
               ("full-groups-then-long", 2, 2, [False] * 4 + [True]),
               ("full-group-then-long-one-core", 3, 1, [False] * 3 + [True, True]),
-              ("long-in-the-middle", 2, 2, [False, True, False, False, True, False, False])]
+              ("long-in-the-middle", 2, 2, [False, True, False, False, True, False, False]),
+              ("long-read-short-alignment", 2, 2, [False, "partial", False, True, "partial"])]
     for tag, bs, cores, kinds in shapes:
         recs = [rec("lr%d" % i, k) for i, k in enumerate(kinds)]
         gaf = os.path.join(tmp, "long.gaf")
@@ -363,7 +382,7 @@ def long_record_runs(ck, tmp):
                 outs[c] = "crash: %s: %s" % (type(e).__name__, e)
         ck.count("long-records:%s" % tag)
         ck.case({"long": tag}, True)
-        replay = {"shape": tag, "batch_size": bs, "cores": cores, "records": ["> 60 000 read bases" if k else "ordinary" for k in kinds],
+        replay = {"shape": tag, "batch_size": bs, "cores": cores, "records": ["long read, short alignment" if k == "partial" else "> 60 000 read bases" if k else "ordinary" for k in kinds],
                   "outputs": {str(c): (o if isinstance(o, str) else [l[:80] for l in o]) for c, o in outs.items()}}
         for c, o in outs.items():
             if isinstance(o, str):
